@@ -1,9 +1,57 @@
 # recipes.py - which harnesses decide which property, with which bounds.
 # See bin/check for the meaning of the fields.
 
-MISC = ["repo:modules/iauth_misc.c", "env/misc_env.c", "env/libc_models.c"]
+MISC = ["repo:modules/iauth_misc.c", "repo:src/common.c", "env/core_env.c", "env/libc_models.c"]
 
 RECIPES = {}
+
+def _pton_uw(d):
+    L = int(d.get("VP_LEN", 24)) + 2
+    return ",".join(["irc_pton.%d:%d" % (i, max(L, 9)) for i in range(7)] + ["irc_pton_ip4.%d:%d" % (i, L) for i in range(5)]
+                    + ["ref_inet6.%d:%d" % (i, max(L, 18)) for i in range(4)] + ["ref_inet4.%d:%d" % (i, L) for i in range(2)]
+                    + ["strchr.0:%d" % L, "vp_str.0:%d" % L, "irc_check_mask.0:9", "in_net.0:130", "memcmp.0:18",
+                       "ctype_init.0:31", "ctype_init.1:17", "vp_bytes.0:18", "harness.0:18"])
+
+
+def _net_uw(d):
+    t = str(d.get("VP_TMPL", "")).strip('"')
+    L = len(t) + 2
+    v6 = ":" in t
+    v4 = "." in t
+    items = []
+    for i in range(7):
+        # .0 leading blanks, .1 /digits, .2 '*' inside the IPv6 loop, .3 IPv6 main loop, .4/.5 '::' shift, .6 bare '*'
+        if i == 0:
+            b = 2
+        elif i in (1, 2, 3, 4, 5):
+            b = (max(L, 9) if v6 else 1)
+        else:
+            b = L
+        items.append("irc_pton.%d:%d" % (i, b))
+    for i in range(5):
+        items.append("irc_pton_ip4.%d:%d" % (i, L if v4 else 1))
+    items += ["strchr.0:%d" % L, "irc_check_mask.0:9", "in_net.0:130", "addr_is.0:9", "ctype_init.0:31", "ctype_init.1:17",
+              "vp_bytes.0:18", "harness.0:18", "harness.1:%d" % L, "harness.2:%d" % L, "harness.3:10", "harness.4:10"]
+    return ",".join(items)
+
+
+def _net_splits(thorough):
+    reject = ["ddd.ddd.ddd.ddd/dd", "d.d.d.d/dd", "hhhh:hhhh::/ddd", "h::/ddd", "ddd.*"]
+    t = ["d.d.d.d/d", "ddd.ddd.ddd.ddd/dd", "dd.d.ddd.dd/dd", "hhhh:hhhh::/ddd", "h:hh::/d", "hhh::/dd",
+         "d.*", "ddd.dd.*", "ddd.ddd.ddd.*", "d.**", "hhhh:*", "h:hh:hhh:hhhh:*", "*", "**"]
+    if thorough:
+        t += ["dd.dd.dd.dd/d", "d.dd.ddd.d/dd", "hhhh:hhhh:hhhh:hhhh::/ddd", "hh:h:hhh::/dd", "hhhh:hhhh:hhhh:hhhh:hhhh:hhhh:hhhh:*",
+              "ddd.ddd.ddd.ddd", "hhhh:hhhh:hhhh:hhhh:hhhh:hhhh:hhhh:hhhh", "::hhhh/ddd", "::/d"]
+    out = []
+    for i, x in enumerate(t):
+        d = {"_name": "t%02d" % i, "VP_TMPL": '"%s"' % x}
+        if x in reject:
+            d["VP_CAN_REJECT"] = None
+        if x in ("*", "**"):
+            d["VP_MATCH_ALL"] = None
+        out.append(d)
+    return out
+
 
 RECIPES["C13"] = {
     "units": ["modules/iauth_misc.c"],
@@ -11,15 +59,31 @@ RECIPES["C13"] = {
         {"name": "mask", "src": ["C13_mask.c"] + MISC,
          "splits": {"all": [{}, {"BITS_BEYOND": None}]},
          "unwind": 130, "unwindset": ["irc_check_mask.0:9"]},
+        {"name": "pton_any", "src": ["C13_pton.c"] + MISC, "defs": {"all": {"P_ANY": None}},
+         "splits": {"quick": [{"VP_LEN": n} for n in range(1, 6)], "thorough": [{"VP_LEN": n} for n in range(1, 10)]},
+         "unwind": 20, "unwindset": [_pton_uw], "timeout": {"quick": 600, "thorough": 3000}, "weight": 3},
+        {"name": "pton_net", "src": ["C13_pton.c"] + MISC, "defs": {"all": {"P_NET": None, "VP_LEN": 24}},
+         "splits": {"quick": _net_splits(False), "thorough": _net_splits(True)},
+         "unwind": 44, "unwindset": [_net_uw], "timeout": 900},
     ],
 }
 
+_NTOP6_UW = ["irc_ntop.0:9", "irc_ntop.1:9", "irc_pton_ip4.0:1", "irc_pton_ip4.1:1", "irc_pton_ip4.2:1", "irc_pton_ip4.3:1",
+             "irc_pton_ip4.4:1", "irc_pton.0:2", "irc_pton.1:1", "irc_pton.2:1", "irc_pton.3:41", "irc_pton.4:9", "irc_pton.5:9",
+             "irc_pton.6:1", "ref_inet6.0:41", "ref_inet6.1:41", "ref_inet6.2:41", "ref_inet6.3:41", "ctype_init.0:31", "ctype_init.1:17"]
+_NTOP4_UW = ["irc_pton_ip4.0:17", "irc_pton_ip4.1:17", "irc_pton_ip4.2:17", "irc_pton_ip4.3:17", "irc_pton_ip4.4:17", "irc_pton.0:2", "ctype_init.0:31", "ctype_init.1:17",
+             "irc_pton.1:1", "irc_pton.2:1", "irc_pton.3:1", "irc_pton.4:1", "irc_pton.5:1", "irc_pton.6:1", "vpm_num.0:5",
+             "ref_inet4.0:5", "ref_inet4.1:5"]
 RECIPES["C12"] = {
     "units": ["modules/iauth_misc.c"],
     "jobs": [
-        {"name": "ntop", "src": ["C12_ntop.c"] + MISC,
-         "splits": {"all": [{}, {"V4": None}]},
-         "unwind": 44, "timeout": 1500},
+        {"name": "ntop6", "src": ["C12_ntop.c"] + MISC,
+         "splits": {"all": [{"PART_OWN": None}, {"PART_REF": None}, {"PART_IDEM": None}]},
+         "defs": {"quick": {"VP_GROUPMAX": "0xf"}, "thorough": {}},
+         "unwind": 44, "unwindset": _NTOP6_UW, "timeout": {"quick": 900, "thorough": 3400}},
+        {"name": "ntop4", "src": ["C12_ntop.c"] + MISC,
+         "splits": {"all": [{"V4": None, "PART_OWN": None, "PART_REF": None, "PART_IDEM": None}]},
+         "unwind": 44, "unwindset": _NTOP4_UW, "timeout": 900},
     ],
 }
 
@@ -120,7 +184,11 @@ FP_IAUTH = {
 
 STEP_EVENTS = ["EV_N", "EV_d", "EV_n", "EV_u", "EV_U", "EV_H", "EV_P", "EV_X", "EV_x", "EV_TIMER", "EV_D", "EV_T", "EV_C"]
 STEP_UNWINDSET = ["set_splay.0:4", "set_first.0:4", "set_clear.0:4", "set_dispose_node:2", "set_clear:2",
-                  "iauth_req_cleanup:2", "strcmp.0:70", "strlen.0:70", "strchr.0:70"]
+                  "iauth_req_cleanup:2", "strcmp.0:70", "strlen.0:70", "strchr.0:70",
+                  "iauth_xquery_check_password.0:14", "iauth_xquery_check_password.1:14",
+                  "iauth_xquery_check_password.2:14", "iauth_xquery_check_password.3:14",
+                  "strtoul.0:8", "strtoul.1:8", "strtol.0:8", "strtol.1:8", "strtol.2:8",
+                  "iauth_xquery_set_account.0:70", "collect.0:48", "collect.1:48"]
 
 
 def step_job(name, check, nreq=2, nsvc=2, events=STEP_EVENTS, extra=None):
@@ -148,3 +216,26 @@ RECIPES["C04"] = {
 
 # Properties without a claimed check, with the reason (kept current by hand).
 NOT_APPLICABLE = {}
+
+LINE_UW = STEP_UNWINDSET + ["iauth_read.0:3", "iauth_read.1:20", "iauth_read.2:12", "iauth_read.3:12", "iauth_read.4:12",
+                            "known_cmd.0:20", "harness.0:12", "harness.1:20", "harness.2:12", "memcpy.0:100"]
+
+
+def line_job(name, mode, lens, extra=None, nreq=1):
+    d = {"NREQ": nreq, "NSVC": 1, mode: None, "VP_LINE_ALLOC": 64}
+    if extra:
+        d.update(extra)
+    return {"name": name, "src": ["C08_line.c"] + IAUTH, "defs": {"all": d},
+            "splits": lens, "unwind": 800, "unwindset": LINE_UW, "fp_restrict": FP_IAUTH,
+            "flags": ["--sat-solver", "cadical"], "timeout": 900}
+
+
+RECIPES["C08"] = {
+    "units": ["modules/iauth_core.c", "modules/iauth_xquery.c", "modules/iauth_class.c", "modules/iauth_misc.c", "src/set.c"],
+    "jobs": [
+        line_job("line_any", "L_ANY", {"quick": [{"VP_LEN": n} for n in (1, 2, 3, 4)], "thorough": [{"VP_LEN": n} for n in range(1, 8)]}),
+        line_job("line_id", "L_ID", {"quick": [{"VP_LEN": n} for n in (1, 2, 3, 5)], "thorough": [{"VP_LEN": n} for n in range(1, 9)]}),
+        line_job("line_args", "L_ARGS", {"all": [{}]}),
+        line_job("line_eof", "L_EOF", {"all": [{}]}),
+    ],
+}
